@@ -327,8 +327,11 @@ class Unit:
                 self.rewrites.append(('R-for iterate %s through %s' % (expr, foriter[k]), where, 1))
                 expr = foriter[k]
             itexpr = '%s(%s)' % (forusing[k], expr) if k in forusing else '(%s).into_iter()' % expr
-            new = 'let mut vx_it%d = %s;\nloop\n%s\n{ match vx_it%d.next() { None => { break; } Some(%s) => {' % (
-                k, itexpr, '\n'.join(l for _, l in lines), k, pat)
+            # `let ghost ..` lines of the section are hoisted in front of the loop (ghost snapshots it needs)
+            ghosts = [l for _, l in lines if l.strip().startswith('let ghost')]
+            invs = [l for _, l in lines if not l.strip().startswith('let ghost')]
+            new = '%s\nlet mut vx_it%d = %s;\nloop\n%s\n{ match vx_it%d.next() { None => { break; } Some(%s) => {' % (
+                '\n'.join(ghosts), k, itexpr, '\n'.join(invs), k, pat)
             repl.append((lp['kw'] - b0, lp['open'] + 1 - b0, new))
             repl.append((lp['close'] - b0, lp['close'] - b0, ' } } '))
             self.rewrites.append(('R-for desugar for-loop %d over %s' % (k, expr), where, 1))
